@@ -109,4 +109,16 @@ def syncStep (W : World) (s : SyncSys) : SyncStep → SyncSys
 
 def syncRun (W : World) (s : SyncSys) (steps : List SyncStep) : SyncSys := steps.foldl (syncStep W) s
 
+/-! ### stop / start cycles with no traffic -/
+
+/-- the target after a start whose process was stopped after `k` of its recovery requests -/
+def restartState (ver : Bytes) (ids : List Bytes) (ns : NS) (k : Nat) : NS :=
+  applyAll ns ((startFrontier ver ns ids).2.take k)
+
+/-- the start points of successive starts, the i-th process being stopped after `ks[i]`
+    of its recovery requests -/
+def restarts (ver : Bytes) (ids : List Bytes) : NS → List Nat → List Start
+  | ns, [] => [(startFrontier ver ns ids).1]
+  | ns, k :: ks => (startFrontier ver ns ids).1 :: restarts ver ids (restartState ver ids ns k) ks
+
 end GunYu.Frontier
